@@ -7,6 +7,7 @@ import (
 	"encoding/json"
 	"fmt"
 	"os"
+	"sort"
 	"strings"
 	"testing"
 	"time"
@@ -88,8 +89,13 @@ func c10Mutate(t *rapid.T, target string, doc []byte, others []c10Doc) ([]byte, 
 		}
 		return rapid.IntRange(0, len(b)).Draw(t, label)
 	}
+	ops := []string{"flip", "set", "trunc", "del", "dup", "insert", "swap", "splice", "nest", "num", "prefix", "long", "token-run"}
+	switch target {
+	case "json", "reddit", "truthsocial", "ina": // typed decoders reject anything that is not JSON: mutate the value tree
+		ops = append(ops, "jsonvalue", "jsonvalue", "jsonvalue", "jsonvalue", "jsonswap", "jsonswap", "jsonvalue", "jsonswap")
+	}
 	for i := 0; i < nOps; i++ {
-		op := rapid.SampledFrom([]string{"flip", "set", "trunc", "del", "dup", "insert", "swap", "splice", "nest", "num", "prefix", "long", "token-run"}).Draw(t, "op")
+		op := rapid.SampledFrom(ops).Draw(t, "op")
 		note = append(note, op)
 		switch op {
 		case "flip":
@@ -210,6 +216,10 @@ func c10Mutate(t *rapid.T, target string, doc []byte, others []c10Doc) ([]byte, 
 			n := rapid.SampledFrom([]int{255, 256, 1023, 2047, 2048, 2049, 4096, 16384, 65535}).Draw(t, "n")
 			ch := rapid.SampledFrom([]byte{'a', '9', ' ', '/', '.', '%', 0xc3, '&', '\\', '\n'}).Draw(t, "ch")
 			b = append(b[:p:p], append(bytes.Repeat([]byte{ch}, n), b[p:]...)...)
+		case "jsonvalue", "jsonswap":
+			if nb, ok := c10JSONMutate(t, b, op == "jsonswap"); ok {
+				b = nb
+			}
 		case "token-run":
 			p := pos("p")
 			tok := rapid.SampledFrom(dict).Draw(t, "tok")
@@ -222,6 +232,73 @@ func c10Mutate(t *rapid.T, target string, doc []byte, others []c10Doc) ([]byte, 
 		b = c10Clamp(b)
 	}
 	return b, strings.Join(note, "+")
+}
+
+// hostile JSON values of every type (raw JSON text), substituted for nodes of a parsed document
+var c10JSONValues = []string{`null`, `true`, `false`, `0`, `-1`, `1.5`, `1e308`, `1e999`, `-0`, `99999999999999999999`, `9223372036854775808`, `""`, `"x"`, `"http://example.org/x.png"`,
+	`"//host.example/y"`, `"../../%zz"`, `"2024-05-01T12:34:56.789Z"`, `"0000-00-00T00:00:00Z"`, `"not-a-date"`, `"\u0000\ud800"`, `[]`, `[null]`, `[1,"a",{}]`, `["http://e.org/a.png"]`, `{}`, `{"url":1}`,
+	`{"image":{"a":[1]}}`, `{"data":null}`, `[[[[[[[[[[[[[[[[[[[[[[[[[[[[[[[[[[[[[[[[]]]]]]]]]]]]]]]]]]]]]]]]]]]]]]]]]]]]]]]]`, `"{\"u\":\"http://in.example/s.png\"}"`, `"[\"a\"]"`}
+
+type c10JSONSlot struct {
+	get func() any
+	set func(any)
+}
+
+// c10JSONSlots lists every value position of a decoded JSON tree (pre-order), as getter/setter pairs.
+func c10JSONSlots(root *any) []c10JSONSlot {
+	var out []c10JSONSlot
+	var walk func(get func() any, set func(any))
+	walk = func(get func() any, set func(any)) {
+		out = append(out, c10JSONSlot{get, set})
+		switch v := get().(type) {
+		case []any:
+			for i := range v {
+				walk(func() any { return v[i] }, func(x any) { v[i] = x })
+			}
+		case map[string]any:
+			keys := make([]string, 0, len(v))
+			for k := range v {
+				keys = append(keys, k)
+			}
+			sort.Strings(keys)
+			for _, k := range keys {
+				walk(func() any { return v[k] }, func(x any) { v[k] = x })
+			}
+		}
+	}
+	walk(func() any { return *root }, func(x any) { *root = x })
+	return out
+}
+
+// c10JSONMutate: structure-aware mutation of a JSON document: a value is replaced by a hostile value of another type, or
+// two values change places (so that an object lands where a string is expected, a string where an array is ...).
+func c10JSONMutate(t *rapid.T, doc []byte, swap bool) ([]byte, bool) {
+	var root any
+	dec := json.NewDecoder(bytes.NewReader(doc))
+	dec.UseNumber()
+	if err := dec.Decode(&root); err != nil {
+		return nil, false
+	}
+	slots := c10JSONSlots(&root)
+	if len(slots) > 5000 {
+		slots = slots[:5000]
+	}
+	i := rapid.IntRange(0, len(slots)-1).Draw(t, "jsonnode")
+	if swap && len(slots) > 2 {
+		j := rapid.IntRange(1, len(slots)-1).Draw(t, "jsonnode2")
+		a, b := slots[i].get(), slots[j].get()
+		ab, _ := json.Marshal(a) // deep copies, so that a value never ends up inside itself
+		bb, _ := json.Marshal(b)
+		slots[j].set(json.RawMessage(ab))
+		slots[i].set(json.RawMessage(bb))
+	} else {
+		slots[i].set(json.RawMessage(rapid.SampledFrom(c10JSONValues).Draw(t, "jsonvalue")))
+	}
+	out, err := json.Marshal(root)
+	if err != nil {
+		return nil, false
+	}
+	return out, true
 }
 
 // genC10Direct: a mutated corpus document of the target.
